@@ -944,6 +944,60 @@ func (l *loopInfo) classLexer(c *Ctx, cfg *loopCfg) (string, bool) {
 	if l.everyCycleHits(progress) {
 		return "lexer loop: every cycle reads a rune with nextRune and the loop is left when it returns eof (the input is finite)", true
 	}
+	// the rune tested against eof may be a phi of reads (`if r == '\\' { r = nextRune() }; if r
+	// == eof`, or `for r := nextRune(); …; r = nextRune()`): every cycle reads a rune, and every
+	// cycle tests the latest rune read against eof with an exit; nextRune keeps returning eof at
+	// the end of the input, so the loop is left at the latest one cycle later
+	var isRead func(v ssa.Value, seen map[ssa.Value]bool) bool
+	isRead = func(v ssa.Value, seen map[ssa.Value]bool) bool {
+		if seen[v] {
+			return true
+		}
+		seen[v] = true
+		switch x := v.(type) {
+		case *ssa.Call:
+			return x.Call.StaticCallee() == cfg.nextRune
+		case *ssa.Phi:
+			for _, e := range x.Edges {
+				if !isRead(e, seen) {
+					return false
+				}
+			}
+			return len(x.Edges) > 0
+		}
+		return false
+	}
+	reads := func(b *ssa.BasicBlock) bool {
+		return blockCalls(b, func(ci ssa.CallInstruction) bool { return ci.Common().StaticCallee() == cfg.nextRune })
+	}
+	eofExit := func(b *ssa.BasicBlock) bool {
+		iff, ok := b.Instrs[len(b.Instrs)-1].(*ssa.If)
+		if !ok {
+			return false
+		}
+		bo, ok := iff.Cond.(*ssa.BinOp)
+		if !ok || (bo.Op != token.EQL && bo.Op != token.NEQ) {
+			return false
+		}
+		x, other := bo.X, bo.Y
+		if k, ok := constInt(other); !ok || k != -1 {
+			x, other = bo.Y, bo.X
+			if k, ok := constInt(other); !ok || k != -1 {
+				return false
+			}
+		}
+		if !isRead(x, map[ssa.Value]bool{}) {
+			return false
+		}
+		eofSucc := b.Succs[0]
+		if bo.Op == token.NEQ {
+			eofSucc = b.Succs[1]
+		}
+		return !l.body[eofSucc]
+	}
+	if l.everyCycleHits(reads) && l.everyCycleHits(eofExit) {
+		return "lexer loop: every cycle reads a rune with nextRune and tests the latest rune read against eof, leaving the loop there (nextRune keeps returning eof at the end of the finite input)", true
+	}
 	// acceptAll: for l.accept(p) {...} with p the function's parameter
 	if l.fn == cfg.acceptAll && cfg.accept != nil {
 		for _, iff := range l.exits() {
